@@ -843,7 +843,24 @@ const EXT_CRATES: &[(&str, &str)] = &[
     ("uuid1", "1.16.0"),
     ("h2", "0.4.1"),
     ("plain", "2.0.0"),
+    ("std", "1.0.0"),
+    ("serde_json", "1.0.140"),
+    ("chrono", "0.4.39"),
 ];
+
+/// real type paths for the crates of the pool that exist in the macro host
+pub fn is_fake_crate(krate: &str) -> bool {
+    real_path(krate).is_none()
+}
+
+fn real_path(krate: &str) -> Option<&'static str> {
+    match krate {
+        "std" => Some("std::path::PathBuf"),
+        "serde_json" => Some("serde_json::Value"),
+        "chrono" => Some("chrono::naive::NaiveDate"),
+        _ => None,
+    }
+}
 
 /// A generated document whose definitions carry x-rust-type annotations for
 /// crates of the pool, so that --crate / --unknown-crates are observable.
@@ -865,7 +882,7 @@ pub fn gen_ext_doc(rng: &mut Rng) -> CorpusDoc {
             name.clone(),
             json!({
                 "type": "string",
-                "x-rust-type": {"crate": krate, "version": req, "path": format!("{ident}::types::Thing{i}")}
+                "x-rust-type": {"crate": krate, "version": req, "path": real_path(krate).map(String::from).unwrap_or_else(|| format!("{ident}::types::Thing{i}"))}
             }),
         );
         props.insert(format!("p{i}"), json!({"$ref": format!("#/definitions/{name}")}));
